@@ -2,11 +2,13 @@ use crate::proto::Driver;
 use crate::{run_op, OpResult, RunCfg};
 
 pub mod common;
+pub mod poll;
 pub mod req;
 
 pub fn dispatch(op: &str, cfg: &RunCfg, d: &mut Driver) -> Option<OpResult> {
     Some(match op {
         "req" => run_op::<req::ReqCase>(cfg, d),
+        "poll" => run_op::<poll::PollCase>(cfg, d),
         _ => return None,
     })
 }
